@@ -13,6 +13,8 @@ MC_SlotSeq == <<
     [id |-> "n_rest", role |-> "hidden", v |-> "",                r |-> ""] >>
 
 (* the library's internal tag in every case variant, the marker line, the parameter names, '=' *)
-MC_DescClasses == {"exoU", "exoM", "exo", "tagline", "pmax", "ptol", "eq"}
+(* and free text ending in a backslash / an operator / an ellipsis (the row that follows in the *)
+(* text is a row of its own)                                                                   *)
+MC_DescClasses == {"exoU", "exoM", "exo", "tagline", "pmax", "ptol", "eq", "endbs", "endop", "enddots"}
 MC_NoForms == {}
 =============================================================================
